@@ -167,6 +167,7 @@ def key_layouts():
 
 
 def input_key(props=None):
+    KP = ('C06', 'C01', 'C02')        # the key identifies the call: replay fidelity (C01) and replay isolation (C02) rest on it too
     repo = Repo(); spec = KeySpec(); ex = lib.install(Exec(repo, spec))
     m, cls, node, info = repo.find(TR + '_input_interception_key')
     st = St()
@@ -181,13 +182,13 @@ def input_key(props=None):
     for s, oc in paths:
         oc = ('return', NONE) if oc[0] == 'normal' else oc
         # frame: nothing that existed at entry is modified (arguments, kwargs, capture list, and any heap field)
-        obl.append(Obl('C06/%s/modifies_nothing' % U, 'C06', s,
+        obl.append(Obl('C06/%s/modifies_nothing' % U, KP, s,
                        z3.And(s.seq(args) == a0, s.dcontents(kwargs)[0] == kd0, s.dcontents(kwargs)[1] == km0,
                               *[s.fld(f) == h0[f] for f in h0]), oc))
         if oc[0] == 'raise':
             # only: unserialisable captured value (ordinary, from encode) or a captured position out of range (IndexError)
             enc_exc = z3.BoolVal(False)
-            obl.append(Obl('C06/%s/raises_only_ordinary' % U, 'C06', s, sub(TYP(Val.addr(oc[1])), K('Exception')), oc))
+            obl.append(Obl('C06/%s/raises_only_ordinary' % U, KP, s, sub(TYP(Val.addr(oc[1])), K('Exception')), oc))
             continue
         capd = s.g.get('capture_seq')
         none_case = cap == NONE
@@ -207,8 +208,8 @@ def input_key(props=None):
         else:
             LAYOUTS.add(None)
             cl = z3.And(Val.is_s(oc[1]), Val.sv(oc[1]) == template(alias, A, KD, KM))
-        obl.append(Obl('C06/%s/result_is_template_of_alias_and_captured_values' % U, 'C06', s, cl, oc))
-    obl += [Obl('C06/%s/%s' % (U, a), 'C06', s_, c, oc_) for a, s_, c, oc_ in ex.obligations]
+        obl.append(Obl('C06/%s/result_is_template_of_alias_and_captured_values' % U, KP, s, cl, oc))
+    obl += [Obl('C06/%s/%s' % (U, a), KP, s_, c, oc_) for a, s_, c, oc_ in ex.obligations]
     return [info], obl, {'paths': len(paths), 'forks': ex.forks}
 
 
